@@ -6,7 +6,8 @@ from . import common as K
 PROP = "C03"
 RULE = ("cases = API call sequences over 1..4 processes (pids 100..999, duplicates allowed, equal and unordered start times, thread-less processes) and 0..4 threads each (tids duplicated across and "
         "inside processes, several or no main threads, threads registered before their process's main thread, named and unnamed), 0..3 libraries with mappings, 5..60 further calls: add_sample with "
-        "stacks of 0..6 frames built frame by frame from label frames, instruction-pointer and return-address frames inside and outside the mapped libraries, with repeated and shared frames, "
+        "stacks of 0..6 frames built frame by frame from label frames (with and without source location), instruction-pointer and return-address frames inside and outside the mapped libraries, "
+        "native-symbol handles (repeated keys, several names) and already symbolicated frames with inline depth 0..2, own name / file / line / column or none, address inside or outside a library, with repeated and shared frames, "
         "prefixes and whole stacks; Text markers (static schema) and markers of 0..3 runtime-registered types with 0..4 fields (unique-string, plain string, number; types registered up front or late, "
         "between markers of other types; all four timings) with and without stacks; counters on processes with and without threads; initial visible / selected threads. Observed: every table of every thread of "
         "the JSON (column lengths, index columns with their target table, stack prefix column), the thread order, tid/pid strings, meta.initialVisibleThreads / initialSelectedThreads, "
@@ -15,7 +16,7 @@ RULE = ("cases = API call sequences over 1..4 processes (pids 100..999, duplicat
 TRUSTED = ["harness h_fxprof/src/prof.rs (calls the public API, prints serde_json::to_string)", "vlib/c03.py: which JSON column points into which table (the index-column catalogue below), "
            "the rendering of frames as content ids (label text / library name + relative address), the expected resolution of addresses against the mappings added at process creation (C11 covers mapping semantics)",
            "pids, tids and names are generated with fixed digit widths so that the crate's string comparisons agree with the numeric comparisons of the model"]
-ASSUMPTIONS = ["the handle discipline the API documents: handles are used with the thread / process they were created for", "counters and allocation samples only where the format allows them; no JS frames, no inline frames (listed in DESIGN.md as not yet covered)"]
+ASSUMPTIONS = ["the handle discipline the API documents: handles are used with the thread / process they were created for", "counters and allocation samples only where the format allows them; no JS frames / frame flags / subcategories, no allocation samples (listed in DESIGN.md as not covered)"]
 _state = {}
 
 
@@ -86,6 +87,40 @@ def gen(tier, rng, scale):
                             frames_pool.append("r%x" % (x + 1))
         stacks_pool = []
         times = {}
+        # native symbol handles (per thread) and already symbolicated frames that use them; label frames with source locations
+        nsyms = []
+        spool = {}
+        for th, p in enumerate(threads):
+            if not pmaps.get(p) or not rng.chance(2, 3):
+                continue
+            for _ in range(rng.range(1, 3)):
+                (l, st, en, rel) = rng.choice(pmaps[p])
+                sa = rel + rng.choice([0, 16, 0x40, 0x100])
+                if nsyms and rng.chance(1, 4):
+                    sa = nsyms[-1][2]                                  # the same (lib, address) key again, possibly under another name
+                ops.append(["H", th, l, sa, rng.choice([0, 32, 0x200]), "ns%d" % rng.below(4)])
+                nsyms.append((th, l, sa))
+                k = len(nsyms) - 1
+                for _ in range(rng.range(1, 4)):
+                    inside = st + (sa - rel) + rng.choice([0, 1, 8, 31])
+                    x = inside if (st <= inside < en and rng.chance(4, 5)) else rng.choice([0x10, 0x7fff0000 + rng.below(64)])
+                    nm = rng.choice(["-", "-", "inl%d" % rng.below(3), "foo"])
+                    fl = rng.choice(["-", "-", "f%d.c" % rng.below(3), "foo"])
+                    tok = "%s%x|%d|%s|%s|%s|%s|%d" % (rng.choice("yyz"), x, k, nm, fl, rng.choice(["-", str(rng.below(50))]), rng.choice(["-", "-", str(rng.below(9))]), rng.choice([0, 0, 1, 2]))
+                    spool.setdefault(th, []).append(tok)
+        for _ in range(rng.range(0, 3)):
+            frames_pool.append("L%s|%s|%s|%s" % (rng.choice(["foo", "bar", "jsfn"]), rng.choice(["-", "f0.c", "g.js", "foo"]), rng.choice(["-", str(rng.below(50))]), rng.choice(["-", str(rng.below(9))])))
+
+        def pick_frames(th, lo, hi):
+            out = []
+            for _ in range(rng.range(lo, hi)):
+                if spool.get(th) and rng.chance(1, 3):
+                    out.append(rng.choice(spool[th]))
+                    if rng.chance(1, 3):
+                        out.append(rng.choice(spool[th]))                  # inline chains: several frames for one address
+                else:
+                    out.append(rng.choice(frames_pool))
+            return out
         gkinds = []
         for g in range(rng.choice([0, 1, 2, 2, 3])):
             kinds = "".join(rng.choice("uuspznn") for _ in range(rng.choice([0, 1, 1, 2, 3, 4])))
@@ -100,18 +135,19 @@ def gen(tier, rng, scale):
                 th = rng.below(len(threads))
                 t = times.get(th, 100) + rng.range(1, 50)
                 times[th] = t
-                if stacks_pool and rng.chance(1, 3):
-                    fr = list(rng.choice(stacks_pool))
+                own = [x for x in stacks_pool if x[0] == th or not any(f[0] in "yz" for f in x[1])]
+                if own and rng.chance(1, 3):
+                    fr = list(rng.choice(own)[1])
                     if rng.chance(1, 2) and fr:
-                        fr = fr[:rng.range(0, len(fr))] + [rng.choice(frames_pool)]
+                        fr = fr[:rng.range(0, len(fr))] + pick_frames(th, 1, 1)
                 else:
-                    fr = [rng.choice(frames_pool) for _ in range(rng.range(0, 6))]
-                stacks_pool.append(fr)
+                    fr = pick_frames(th, 0, 6)
+                stacks_pool.append((th, fr))
                 ops.append(["S", th, t, rng.choice([1, 1, 2]), ] + fr)
             elif r < 66 and threads:
                 th = rng.below(len(threads))
                 t = times.get(th, 100) + rng.range(1, 50)
-                fr = [rng.choice(frames_pool) for _ in range(rng.range(0, 4))] if rng.chance(1, 2) else []
+                fr = pick_frames(th, 0, 4) if rng.chance(1, 2) else []
                 ops.append(["K", th, t, rng.choice(["mk", "foo", "gc"]), rng.choice(["txt", "foo", "x"])] + fr)
             elif r < 72 and threads and (registered or pending_g):
                 if pending_g and (not registered or rng.chance(1, 2)):
@@ -124,7 +160,7 @@ def gen(tier, rng, scale):
                 th = rng.below(len(threads))
                 t = times.get(th, 100) + rng.range(1, 50)
                 vals = [str(rng.below(1000)) if k == "n" else rng.choice(["foo", "bar", "txt", "v%d" % rng.below(5), "mk"]) for k in gkinds[g]]
-                fr = [rng.choice(frames_pool) for _ in range(rng.range(0, 4))] if rng.chance(1, 3) else []
+                fr = pick_frames(th, 0, 4) if rng.chance(1, 3) else []
                 ops.append(["R", th, rng.choice("IVBE"), t, t + rng.below(20), tyno, rng.choice(["mk", "rm", "foo"]), ",".join(vals) or "-"] + fr)
             elif r < 80:
                 p = rng.below(nproc)
@@ -144,10 +180,27 @@ def _valid(ops):
     """drop calls whose handles no longer exist after shrinking"""
     np = nt = nl = nc = 0
     gk = []
+    hs = []
     out = []
+
+    def frames_ok(th, fr):
+        # a symbolicated frame must use a native symbol handle of its own thread (the API asserts it)
+        return [f for f in fr if not (isinstance(f, str) and f[:1] in "yz") or (int(f.split("|")[1]) < len(hs) and hs[int(f.split("|")[1])] == th)]
     for o in ops:
         k = o[0]
-        if k == "G":
+        if k == "H":
+            if o[1] >= nt or o[2] >= nl:
+                continue
+            hs.append(o[1])
+        elif k == "S":
+            if o[1] >= nt:
+                continue
+            o = o[:4] + frames_ok(o[1], o[4:])
+        elif k == "K":
+            if o[1] >= nt:
+                continue
+            o = o[:5] + frames_ok(o[1], o[5:])
+        elif k == "G":
             gk.append("" if o[2] == "-" else o[2])
         elif k == "R":
             if o[1] >= nt or o[5] >= len(gk):
@@ -156,6 +209,7 @@ def _valid(ops):
             kinds = gk[o[5]]
             if len(vals) != len(kinds) or any(kd == "n" and not v.isdigit() for kd, v in zip(kinds, vals)):
                 continue
+            o = o[:8] + frames_ok(o[1], o[8:])
         elif k == "P":
             np += 1
         elif k == "L":
@@ -170,7 +224,7 @@ def _valid(ops):
         elif k == "M":
             if o[1] >= np or o[2] >= nl:
                 continue
-        elif k in ("N", "S", "K", "V", "W", "E"):
+        elif k in ("N", "V", "W", "E"):
             if o[1] >= nt:
                 continue
         elif k == "C":
@@ -290,17 +344,45 @@ def _coq_case(ops, prof):
             return None
         return best
 
+    nsh = []            # native symbol handles: (thread, lib, address)
+    ns_first = {}       # (thread, lib, address) -> name of the first registration
+
+    def _o(v, fmt="%d"):
+        return "None" if v is None else "(Some " + (fmt % v) + ")"
+
+    def resolve(p, f):
+        """(x, hit) for an address frame token"""
+        a = int(f[1:].split("|")[0], 16)
+        x = a if f[0] in "ay" else max(a - 1, 0)
+        hit = None
+        for (l, s0, e0, rel) in maps.get(p, []):
+            # later mappings that overlap evict earlier ones (C11); the generator never overlaps them
+            if s0 <= x < e0:
+                hit = (l, rel + (x - s0))
+        return x, hit
+
+    def parse_sym(f):
+        q = f[1:].split("|")
+        opt = lambda v: None if v == "-" else v
+        return int(q[1]), opt(q[2]), opt(q[3]), (None if q[4] == "-" else int(q[4])), (None if q[5] == "-" else int(q[5])), int(q[6])
+
     def request(th, p, f):
         """the table request a frame causes (same resolution as `expect`)"""
         if f[0] == "l":
             reqs.append("(%d%%nat, FLabel %d)" % (th, S(f[1:])))
             return
-        a = int(f[1:], 16)
-        x = a if f[0] == "a" else max(a - 1, 0)
-        hit = None
-        for (l, s0, e0, rel) in maps.get(p, []):
-            if s0 <= x < e0:
-                hit = (l, rel + (x - s0))
+        if f[0] == "L":
+            q = f[1:].split("|")
+            reqs.append("(%d%%nat, FLabelLoc %d %s %s %s)" % (th, S(q[0]), _o(None if q[1] == "-" else S(q[1])), _o(None if q[2] == "-" else int(q[2])), _o(None if q[3] == "-" else int(q[3]))))
+            return
+        x, hit = resolve(p, f)
+        if f[0] in "yz":
+            k, nm, fl, ln, cl, depth = parse_sym(f)
+            (_, nslib, nsaddr) = nsh[k]
+            reqs.append("(%d%%nat, FSymbolicated %s %d %d%%nat %d %s %s %s %s %d %d)" % (
+                th, "None" if hit is None else "(Some (%d%%nat, %d))" % hit, S("0x%x" % x), nslib, nsaddr,
+                _o(None if nm is None else S(nm)), _o(None if fl is None else S(fl)), _o(ln), _o(cl), depth, 0 if hit is None else S(libs[hit[0]])))
+            return
         if hit is None:
             reqs.append("(%d%%nat, FLabel %d)" % (th, S("0x%x" % x)))
         else:
@@ -310,19 +392,26 @@ def _coq_case(ops, prof):
             else:
                 reqs.append("(%d%%nat, FNativeSym %d%%nat %d %d %d %d)" % (th, hit[0], hit[1], sy[0], S(sy[2]), S(libs[hit[0]])))
 
-    def expect(p, f):
+    def expect(th, p, f):
+        """content id of the frame the caller named: (function name, library, relative address, file, line, column, inline depth, native symbol)"""
         if f[0] == "l":
-            return I(("L", f[1:]))
-        a = int(f[1:], 16)
-        x = a if f[0] == "a" else max(a - 1, 0)
-        hit = None
-        for (l, s, e, rel) in maps.get(p, []):
-            # later mappings that overlap evict earlier ones (C11); the generator never overlaps them
-            if s <= x < e:
-                hit = (l, rel + (x - s))
+            return I(("F", f[1:], None, None, None, None, None, 0, None))
+        if f[0] == "L":
+            q = f[1:].split("|")
+            return I(("F", q[0], None, None, None if q[1] == "-" else q[1], None if q[2] == "-" else int(q[2]), None if q[3] == "-" else int(q[3]), 0, None))
+        x, hit = resolve(p, f)
+        if f[0] in "yz":
+            k, nm, fl, ln, cl, depth = parse_sym(f)
+            (_, nslib, nsaddr) = nsh[k]
+            if hit is None:
+                return I(("F", nm if nm is not None else "0x%x" % x, None, None, fl, ln, cl, 0, None))
+            return I(("F", nm if nm is not None else ns_first[(th, nslib, nsaddr)], libs[hit[0]], hit[1], fl, ln, cl, depth, (libs[nslib], nsaddr)))
         if hit is None:
-            return I(("L", "0x%x" % x))
-        return I(("A", libs[hit[0]], hit[1]))
+            return I(("F", "0x%x" % x, None, None, None, None, None, 0, None))
+        sy = sym_lookup(hit[0], hit[1])
+        if sy is None:
+            return I(("F", "0x%x" % hit[1], libs[hit[0]], hit[1], None, None, None, 0, None))
+        return I(("F", sy[2], libs[hit[0]], hit[1], None, None, None, 0, (libs[hit[0]], sy[0])))
 
     for o in ops:
         k = o[0]
@@ -347,8 +436,12 @@ def _coq_case(ops, prof):
             threads.append([o[1], o[2], o[3], o[4], None])
         elif k == "N":
             threads[o[1]][4] = int(o[2][2:])
+        elif k == "H":
+            nsh.append((o[1], o[2], o[3]))
+            ns_first.setdefault((o[1], o[2], o[3]), o[5])
+            reqs.append("(%d%%nat, FNs %d%%nat %d %d)" % (o[1], o[2], o[3], S(o[5])))
         elif k == "S":
-            samples.append((o[1], o[2], [expect(threads[o[1]][0], f) for f in o[4:]]))
+            samples.append((o[1], o[2], [expect(o[1], threads[o[1]][0], f) for f in o[4:]]))
             for f in o[4:]:
                 request(o[1], threads[o[1]][0], f)
         elif k == "G":
@@ -365,7 +458,7 @@ def _coq_case(ops, prof):
                     reqs.append("(%d%%nat, FString %d)" % (o[1], S(v)))
             mops.append("(Some %d%%nat, %d, MAdd %d%%nat %s)" % (o[1], S(o[6]), ty, K.coq_list([str(int(v)) if kd == "n" else str(S(v)) for kd, v in zip(kinds, vals)])))
             if len(o) > 8:
-                mstacks.append((o[1], [expect(threads[o[1]][0], f) for f in o[8:]]))
+                mstacks.append((o[1], [expect(o[1], threads[o[1]][0], f) for f in o[8:]]))
                 for f in o[8:]:
                     request(o[1], threads[o[1]][0], f)
         elif k == "K":
@@ -377,7 +470,7 @@ def _coq_case(ops, prof):
             reqs.append("(%d%%nat, FString %d)" % (o[1], S(o[3])))
             reqs.append("(%d%%nat, FString %d)" % (o[1], S(o[4])))
             if len(o) > 5:
-                mstacks.append((o[1], [expect(threads[o[1]][0], f) for f in o[5:]]))
+                mstacks.append((o[1], [expect(o[1], threads[o[1]][0], f) for f in o[5:]]))
                 for f in o[5:]:
                     request(o[1], threads[o[1]][0], f)
         elif k == "C":
@@ -393,15 +486,20 @@ def _coq_case(ops, prof):
         strings = th["stringArray"]
         ft, fu, rt = th["frameTable"], th["funcTable"], th["resourceTable"]
         fids = []
+        nst = th["nativeSymbols"]
         for i in range(ft["length"]):
             try:
                 f = ft["func"][i]
                 name = strings[fu["name"][f]]
                 r = fu["resource"][f]
-                if r is None or r < 0:
-                    fids.append(I(("L", name)))
-                else:
-                    fids.append(I(("A", prof["libs"][rt["lib"][r]]["name"], ft["address"][i])))
+                lib = None if (r is None or r < 0) else prof["libs"][rt["lib"][r]]["name"]
+                addr = ft["address"][i]
+                addr = None if (addr is None or addr < 0) else addr
+                fl = fu["fileName"][f]
+                fl = None if fl is None else strings[fl]
+                ns = ft["nativeSymbol"][i]
+                ns = None if ns is None else (prof["libs"][nst["libIndex"][ns]]["name"], nst["address"][ns])
+                fids.append(I(("F", name, lib, addr, fl, ft["line"][i], ft["column"][i], ft["inlineDepth"][i], ns)))
             except Exception:
                 fids.append(I(("BAD", i)))
         st = th["stackTable"]
@@ -428,7 +526,8 @@ def _coq_case(ops, prof):
     otables = []
     for th in prof["threads"]:
         ft, fu, rt = th["frameTable"], th["funcTable"], th["resourceTable"]
-        otables.append("(%s, %s, %s, %s, %s, %s, %s, %s, %s, %s, %s)" % (
+        oN = lambda l: K.coq_list(["None" if x is None else "(Some %d)" % x for x in l])
+        otables.append("(%s, %s, %s, %s, %s, %s, %s, %s, %s, %s, %s, (%s, %s, %s, %s))" % (
             K.coq_list([str(S(x)) for x in th["stringArray"]]),
             K.coq_list(["%d%%nat" % x for x in rt["lib"]]), K.coq_list(["%d%%nat" % x for x in rt["name"]]),
             K.coq_list(["%d%%nat" % x for x in fu["name"]]), K.coq_list([_opt(x) for x in fu["resource"]]),
@@ -436,7 +535,8 @@ def _coq_case(ops, prof):
             K.coq_list(["None" if (x is None or x < 0) else "(Some %d)" % x for x in ft["address"]]),
             K.coq_list([_opt(x) for x in ft["nativeSymbol"]]),
             K.coq_list(["%d%%nat" % x for x in th["nativeSymbols"]["libIndex"]]), K.coq_list([str(x) for x in th["nativeSymbols"]["address"]]),
-            K.coq_list(["%d%%nat" % x for x in th["nativeSymbols"]["name"]])))
+            K.coq_list(["%d%%nat" % x for x in th["nativeSymbols"]["name"]]),
+            K.coq_list([_opt(x) for x in fu["fileName"]]), oN(ft["line"]), oN(ft["column"]), K.coq_list([str(x) for x in ft["inlineDepth"]])))
     obmarkers = []
     for th in prof["threads"]:
         strings = th["stringArray"]
